@@ -174,8 +174,9 @@ Proof.
   - injection H as H. subst out. assert (j = 0) by lia. subst j. simpl. reflexivity.
   - pose proof (transpose_gen_wf C (fun v => v) m W) as WT.
     pose proof (reshape_csr_den (transpose_csr C m) out _ _ j i WT H) as R.
-    simpl in R. specialize (R Hj Hi).
-    rewrite Nat.div_1_r, Nat.mod_1_r in R. rewrite R.
+    assert (R' : den_csr out ((j * s_nr C m + i) / 1) ((j * s_nr C m + i) mod 1) =
+                 den_csr (transpose_csr C m) j i) by (apply R; [exact Hj|exact Hi]).
+    rewrite Nat.div_1_r, Nat.mod_1_r in R'. rewrite R'.
     destruct W as [Hlen _].
     apply (transpose_gen_den C c0 (fun v => v)); [reflexivity|exact Hlen].
 Qed.
@@ -189,9 +190,9 @@ Proof.
   assert (E1 : (j * d_nr C d + i <? d_nr C d * d_nc C d) && (0 <? 1) = true) by nia.
   destruct (d_fortran C d) eqn:F.
   - unfold C01.den_dense. simpl. rewrite E1, E3, F. unfold didx. f_equal. lia.
-  - unfold C01.den_dense at 1. simpl. rewrite E1. unfold didx.
-    replace (j * d_nr C d + i + 0 * (d_nr C d * d_nc C d)) with (didx (d_nr C d) (d_nc C d) true i j)
-      by (unfold didx; lia).
+  - assert (Ei : didx (d_nr C d * d_nc C d) 1 true (j * d_nr C d + i) 0 =
+                 didx (d_nr C d) (d_nc C d) true i j) by (unfold didx; lia).
+    unfold C01.den_dense at 1. cbn [d_nr d_nc d_fortran d_data]. rewrite E1, Ei.
     apply nth_tabulate; assumption.
 Qed.
 End Reshape.
